@@ -1333,6 +1333,18 @@ func checkC18(in *exInput) []exFinding {
 		}
 		return c
 	}
+	var fs0 []exFinding
+	// the whole specification, in one call: each external document is requested at most once (whichever section reaches it first)
+	for _, o := range []exOpts{{Abs: abs}, {Skip: true}} {
+		if res := exRun(g.call("expand_spec", o)); res.ok() {
+			if d := exDuplicates(res.Loads); len(d) > 0 {
+				fs0 = append(fs0, exFinding{Shape: "duplicate-load:spec", What: "a document is requested twice within one ExpandSpec", Obs: d})
+			}
+		}
+	}
+	if len(fs0) > 0 {
+		return exFirstPerShape(fs0)
+	}
 	docs := g.docList()
 	var subsets [][]string
 	subsets = append(subsets, docs, []string{g.Root})
